@@ -5,43 +5,12 @@
    over the generated facts of Gen/Signatures.v. *)
 From Coq Require Import List NArith ZArith Bool String.
 From PMS Require Import Base.PyStr Base.PyInt Base.Exn Model.ConfigSyntax Gen.Signatures.
+From PMS Require Export Base.Version.
 Import ListNotations.
 Open Scope N_scope.
 Open Scope list_scope.
 
-(* ---- dotted numeric strings: [0-9]+(\.[0-9]+)*  (ASCII digits) *)
-Definition dot : N := 46.
-Definition is_digit (c : N) : bool := N.leb 48 c && N.leb c 57.
-Definition section_ok (s : pstr) : bool :=
-  match s with [] => false | _ => forallb is_digit s end.
-Definition dotted_numeric (s : pstr) : bool := forallb section_ok (split dot s).
-
-(* AwesomeVersion.section(i): int() of the i-th dot separated part *)
-Definition sec_val (s : pstr) : N := fold_left (fun a c => 10 * a + (c - 48)) s 0.
-Definition sections (s : pstr) : list N := map sec_val (split dot s).
-
-(* comparehandlers.sections.compare_base_sections(a, b): walk the sections
-   up to the longer length, a missing section counts 0; Some true = a is
-   greater, Some false = b is greater, None = no difference found *)
-Definition nonzero (l : list N) : bool := existsb (fun x => negb (N.eqb x 0)) l.
-Fixpoint base_cmp (a b : list N) : option bool :=
-  match a, b with
-  | [], _ => if nonzero b then Some false else None
-  | _, [] => if nonzero a then Some true else None
-  | x :: a', y :: b' => if N.eqb x y then base_cmp a' b' else Some (N.ltb y x)
-  end.
-
-(* AwesomeVersion.__gt__ / __lt__ / __eq__ for two dotted numeric strings:
-   identical strings are never greater/less; otherwise _compare_versions,
-   whose handlers all reduce to compare_base_sections and finally False.
-   __eq__ is equality of the strings, __ge__ is "__eq__ or __gt__",
-   __le__ is "__eq__ or __lt__" (so "2.0.0" >= "2.0" is False). *)
-Definition av_gt_num (a b : pstr) : bool :=
-  if pstr_eqb a b then false
-  else match base_cmp (sections a) (sections b) with Some r => r | None => false end.
-Definition av_lt_num (a b : pstr) : bool :=
-  if pstr_eqb a b then false
-  else match base_cmp (sections b) (sections a) with Some r => r | None => false end.
+(* dotted numeric strings, sections, base_cmp, av_gt_num, av_lt_num: Base/Version.v *)
 
 Definition av_num (op : avop) (l r : pstr) : bool :=
   match op with
